@@ -317,7 +317,21 @@ def _worker(args):
 
 def merge_stats(dst, src):
     for k, v in src.items():
-        if isinstance(v, dict):
+        if k == "_maps":
+            # tables that must stay functions across the whole batch (e.g. content -> hash)
+            maps = dst.setdefault("_maps", {})
+            for name, table in v.items():
+                t = maps.setdefault(name, {})
+                for key, val in table.items():
+                    if key in t:
+                        dst["table_shared_hits"] = dst.get("table_shared_hits", 0) + 1
+                        if t[key][0] != val[0]:
+                            dst.setdefault("_conflicts", []).append((name, key, t[key], val))
+                    else:
+                        t[key] = val
+        elif k == "_conflicts":
+            dst.setdefault("_conflicts", []).extend(v)
+        elif isinstance(v, dict):
             merge_stats(dst.setdefault(k, {}), v)
         elif isinstance(v, (set, frozenset)):
             dst.setdefault(k, set()).update(v)
@@ -448,7 +462,35 @@ def run_check(pid, tier):
         extra = mod.pre_batch(tier) or {}
         if extra.get("violations"):
             pass
-    merged = run_batch(pid, tier, cfg["runs"], cfg["wall_cap"])
+    round_size = cfg.get("round", 2400)
+    merged = None
+    done = 0
+    conflict_viol = []
+    while done < cfg["runs"] and time.time() - t0 < cfg["wall_cap"]:
+        n = min(round_size, cfg["runs"] - done)
+        part = run_batch(pid, tier, n, cfg["wall_cap"] - (time.time() - t0) + 5, offset=done)
+        done += n
+        for name, key, v1, v2 in part["stats"].pop("_conflicts", [])[:3]:
+            case = mod.conflict_case(name, key, v1, v2, tier)
+            r = execute_case(mod, case)
+            if not r["violation"]:
+                raise HarnessError(f"table conflict {name} {key} does not reproduce as a pair case")
+            conflict_viol.append((-1, v1[1][0], case, r["violation"]))
+        tables = part["stats"].pop("_maps", {})
+        part["stats"]["table_entries"] = {k: len(v) for k, v in tables.items()}
+        del tables
+        if merged is None:
+            merged = part
+        else:
+            for k in ("digests", "violations", "nontrivial", "errors"):
+                merged[k] += part[k]
+            merged["samples"] = (merged["samples"] + part["samples"])[:3]
+            merged["runs"] += part["runs"]
+            merged["wall_s"] += part["wall_s"]
+            merge_stats(merged["stats"], part["stats"])
+        if merged["errors"] or len(merged["violations"]) > 200:
+            break
+    merged["violations"] = conflict_viol + merged["violations"]
     if merged["errors"]:
         i, seed, tb = merged["errors"][0]
         print(f"[{pid}] HARNESS: {len(merged['errors'])} run(s) raised inside the harness; first: run {i} seed {seed}\n{tb}", flush=True)
